@@ -5,6 +5,7 @@
 //!   pvh search <property> <seed> <budget> <out> run the property's oracles on the real crate
 mod exec;
 mod gen;
+mod io;
 mod geom;
 mod monitor;
 mod opt;
